@@ -4,6 +4,7 @@ package main
 
 import (
 	"bytes"
+	"sort"
 	"context"
 	"fmt"
 	"os/exec"
@@ -65,6 +66,67 @@ func buildQuery(asserts []*Term, want []*Term) string {
 		case "Int", "Bool", "String", "Real":
 			seen[w.Name] = true
 			vals = append(vals, smtSym(w.Name))
+		}
+	}
+	// also: closed array reads at literal indices and uninterpreted
+	// applications over inputs (they carry slice elements, decoded payloads…)
+	extra := 0
+	var walk func(t *Term, bound bool)
+	walk = func(t *Term, bound bool) {
+		if extra > 80 {
+			return
+		}
+		if t.Op == "forall" || t.Op == "exists" {
+			return
+		}
+		ok := false
+		switch t.Op {
+		case "select":
+			ok = t.Args[0].Op == "var" && t.Args[1].Op == "int"
+		case "uf":
+			ok = len(t.Args) > 0
+			for _, a := range t.Args {
+				if !(a.Op == "var" || a.Op == "int" || a.Op == "str" || (a.Op == "select" && a.Args[0].Op == "var" && a.Args[1].Op == "int")) {
+					ok = false
+				}
+			}
+		case "str.len":
+			ok = t.Args[0].Op == "var"
+		}
+		if ok {
+			switch t.S.Name {
+			case "Array":
+			default:
+				k := t.String()
+				if !seen[k] {
+					seen[k] = true
+					vals = append(vals, k)
+					extra++
+				}
+			}
+		}
+		for _, a := range t.Args {
+			walk(a, bound)
+		}
+	}
+	for _, a := range asserts {
+		walk(a, false)
+	}
+	// the first elements of every input slice
+	var arrNames []string
+	for n, srt := range ds.vars {
+		if srt.Name == "Array" && srt.Idx.Name == "Int" && srt.Elem.Name != "Array" && strings.HasSuffix(n, "$arr") && !strings.Contains(n, "§") {
+			arrNames = append(arrNames, n)
+		}
+	}
+	sort.Strings(arrNames)
+	for _, n := range arrNames {
+		for i := 0; i < 4; i++ {
+			k := fmt.Sprintf("(select %s %d)", smtSym(n), i)
+			if !seen[k] {
+				seen[k] = true
+				vals = append(vals, k)
+			}
 		}
 	}
 	if len(vals) > 0 {
@@ -172,7 +234,11 @@ func parseGetValue(raw string) map[string]string {
 	top := toks[0]
 	for _, pair := range top.kids {
 		if len(pair.kids) == 2 {
-			m[strings.Trim(pair.kids[0].atom, "|")] = pair.kids[1].text()
+			key := pair.kids[0].text()
+			if !pair.kids[0].list {
+				key = strings.Trim(pair.kids[0].atom, "|")
+			}
+			m[key] = pair.kids[1].text()
 		}
 	}
 	return m
